@@ -165,9 +165,15 @@ class Real:
 def judge_reply(ctx, bases, real, a, reply, obs, case):
     name = a["name"]
     if name == "NewAv":
-        ok = obs["inst"] == reply["n"]
         exp, got = reply["n"], obs["inst"]
         clause = "CacheCoherent"
+        ok = got == exp
+        if not ok and reply["flag"] and got <= len(real.inst_b) and real.inst_b[got - 1] == a["n"]:
+            # the model expected a new object (no cache entry: clear_cache happened since) and the code handed
+            # back the older object of the *same* basis: identity across clear_cache is not promised -> drift;
+            # the harness cannot continue this path (its instance numbering no longer matches the model's)
+            ctx.drift("Av(basis %d) after clear_cache is the object created before it" % a["n"])
+            return False
     elif name == "Count":
         ok, exp, got, clause = obs["n"] == reply["n"], reply["n"], obs["n"], "ReplyCorrect"
     elif name == "OfLength":
